@@ -245,8 +245,8 @@ fn top_level_order<const N: usize>() {
 
 // ---------------------------------------------------------------------------------------------- TopLevelFoldHook
 /// TopLevelFoldHook: selects a non-empty sub-multiset (when anything is queued), the rest stays queued.
-fn top_level_fold<const N: usize>() {
-    let it = items::<N>();
+fn top_level_fold<const N: usize>() { top_level_fold_with::<N>(items::<N>()) }
+fn top_level_fold_with<const N: usize>(it: [u8; N]) {
     let input = queue(&it);
     let (tx, rx) = unbounded::<Vec<u8>>();
     let mut h = TopLevelFoldHook { input: input.clone(), to_release: None, output: tx, location: LOC, format_item_debug: no_debug };
@@ -273,6 +273,9 @@ fn top_level_fold<const N: usize>() {
 }
 #[kani::proof] #[kani::unwind(5)] pub(crate) fn top_level_fold_n0() { top_level_fold::<0>() }
 #[kani::proof] #[kani::unwind(5)] pub(crate) fn top_level_fold_n1() { top_level_fold::<1>() }
+/// MEASURED: > 1200 s of CBMC as well; in NO tier.  Two CONCRETE distinct items (the hook never inspects item values, so distinct tags show loss / duplication / invention just as
+/// symbolic values would); every decision of the driver is still symbolic
+#[kani::proof] #[kani::unwind(5)] pub(crate) fn deep_top_level_fold_two_tagged_items() { top_level_fold_with::<2>([10, 20]) }
 #[kani::proof] #[kani::unwind(5)] pub(crate) fn deep_top_level_fold_n2()   /* > 15 min of CBMC (drain + enumerate + Fisher-Yates over a symbolic subset): in NO tier */ { top_level_fold::<2>() }
 
 // ---------------------------------------------------------------------------------------------- inline hooks
